@@ -6,7 +6,7 @@ ROOT = os.path.dirname(os.path.abspath(__file__))
 cfg = json.load(open(ROOT + "/checks.json"))
 SHORT = {
     "C01": ("`FanoutMany::*` over the whole keyed view; `pubsub::Topic::poll` relational step contract (each subscriber gets exactly the items handed over during the step, late joiners a contiguous run), Ready/Pending exit conditions", "`d90a8b3` early park with an unfinished flush"),
-    "C02": ("`Router::start_send` routes to exactly the tagged requestor / leaves the map unchanged; `reqrep::Topic::poll` forces the origin tag, never overwrites a parked reply/request, reply ledger exactly-once in order", "`a10dadf` reply slot overwritten"),
+    "C02": ("`Router::start_send` routes to exactly the tagged requestor / leaves the map unchanged; `reqrep::Topic::poll` forces the origin tag, never overwrites a parked reply/request, reply ledger exactly-once in order, request ledger at-most-once", "`a10dadf` reply slot overwritten"),
     "C03": ("publisher conservation law `flatten(frames) ++ batch == accepted` for any batch size/interval/clock; `finish` flushes before the QUIC stream is finished; subscriber yields a batch first-to-last once", "`5104c15` batch reversed, `b0e4e71` finish drops buffered frames, `e9c2e6a` interval overflow panic"),
     "C04": ("id ↔ oneshot pairing under the table lock, tagging, dispatch touches only the addressed entry, replier echoes headers, exactly one reply per request; once registered, a request waits for nothing outside its time-out", "`923ac9d` request blocked in the send never times out"),
     "C05": ("`MessageCodec::{encode,decode}`, `Frame::*`, batch codec against the wire spec; round-trip, exact consumption, chunking, unbatch∘batch lemmas", "—"),
@@ -16,7 +16,7 @@ SHORT = {
     "C09": ("`decreases` over ghost availability budgets (no spin), armed-waker postcondition on every `Pending` (no lost wake-up)", "`d90a8b3`, `65a696c` spin, `1c15f0f` lost wake-up"),
     "C10": ("one replier: bound replier never replaced, late replier refused with code 5, rejection slot never overwritten, told before it is closed", "`445b6c2` rejected replier dropped unclosed"),
     "C11": ("every open answered Error or Ok+handed over in the asked role, no reachable panic on any frame kind, a bound replier is only unbound when its transport failed or its stream ended, a refused frame leaves nothing in the writer", "`3fa1a09` role mismatch panic, `e9ddbe0` unwrap_message on peer frames, (`b0158e3`)"),
-    "C12": ("retry budget/state machine of all four stream kinds: fresh budget per outage, counts down, Exhausted → TooManyRetries, unrecoverable at once, every Pending requested a wake-up, `on_reconnect` re-binds the reply reader; `reconnect` replaces only a lost connection (same server, same settings), `open_stream`/`reestablish_connection` register again with the stream's own settings", "`02ac126` reply reader not re-bound, `4942683` per-outage budget"),
+    "C12": ("retry budget/state machine of all four stream kinds: fresh budget per outage, counts down, Exhausted → TooManyRetries, unrecoverable at once, every Pending requested a wake-up, `on_reconnect` re-binds the reply reader (requestor) / installs exactly the registered stream (publisher, subscriber); `reconnect` replaces only a lost connection (same server, same settings), `open_stream`/`reestablish_connection` register again with the stream's own settings", "`02ac126` reply reader not re-bound, `4942683` per-outage budget"),
     "C13": ("`BackoffStrategyIter::next` law for arbitrary state: count, numbering, `clamp(saturate(law))`, no panic/wrap", "`c319e09` overflow panics"),
     "C14": ("selium's glue around the compression libraries and codecs against *assumed* library pair contracts; composition lemmas", "—"),
     "C16": ("Ready only after close and with everything flushed; closed ∧ cooperative ⇒ Ready; `Server::shutdown` closes every topic's channel", "(shared with C09)"),
@@ -62,14 +62,16 @@ applies, the workspace builds, the 50 pinned tests still pass, and the demonstra
 fails with the patch.  None was ever committed to `/repo`; `seedall.py` applies one (`git -C /repo apply`), runs the check of the
 property it breaks, and reverts (`git -C /repo checkout -- .`).
 
-Seeds `-1..-3` (48, all properties except C15) arrived while the checks were being built and were used to strengthen them; seeds
-`-4..-9` (96, all sixteen claimed properties, in four later rounds; the last two rounds were steered away from the central
-functions, towards changes that span two files, defaults, error classification and peers that fail at odd moments)
-were each first run **blind** against the machinery as it stood — `seeded/ROUND2_BLIND.md` records every first contact: 67
-detected, 21 undecided, 8 missed (4 of the first 32, 1 of the next 32, 3 of the last 32).  Every miss was a gap in what the
+Seeds `-1..-3` (48 at first, all properties except C15; one was retired later, see below) arrived while the checks were being built and were used to strengthen them; seeds
+`-4..-11` (128, all sixteen claimed properties, in five later rounds; the later rounds were steered away from the central
+functions: changes that span two files, defaults, error classification, peers that fail at odd moments, and — each sub-agent being
+told what had been seeded before — features that add state, files the property depends on only indirectly, lifetimes, boundaries)
+were each first run **blind** against the machinery as it stood — `seeded/ROUND2_BLIND.md` records every first contact: 81
+detected, 32 undecided, 15 missed (4, 1, 3 and 7 of the successive 32s).  Every miss was a gap in what the
 contracts stated (a clause nobody had written, a function of an anchor file not listed for the property, a function not under
-contract, a unit the property depends on but did not list — the frame codec for the router properties); each was
-closed by adding the clause or the unit, and attribution was made to follow the anchor files.  One miss of the last round
+contract, a unit the property depends on but did not list — the frame codec for the router properties, the compression glue for
+C03 —, and serde attributes the extraction dropped); each was
+closed by adding the clause or the unit, and attribution was made to follow the anchor files.  One miss of round 5
 (C17-9, a connection-level receive window set in `quic.rs`) is detected only by the end-to-end search of the thorough tier.
 Round 5 also produced defect `923ac9d` of §2.7 (a sub-agent noticed that the unchanged tree already stalls under the load it
 wanted to use for a seed).  Two seeds (C04-2, C12-4) and five behaviour-preserving changes whose patches touched the lines that fix moved
